@@ -624,6 +624,13 @@ def _int_lt(eng, st, args, ci):
     return (a.e >= b.e) if s else z3.UGE(a.e, b.e)
 
 
+@intrinsic(r'^<(std::cmp::|core::cmp::)?Ordering as (std::cmp::)?PartialEq>::(eq|ne)$', 'Ordering == / != (derived)')
+def _ordering_eq(eng, st, args, ci):
+    a, b = _deref_arg(eng, st, args[0]), _deref_arg(eng, st, args[1])
+    r = a.discr == b.discr
+    return r if ci.func.endswith('::eq') else z3.Not(r)
+
+
 @intrinsic(r'^(std|core)::cmp::Ordering::(then|reverse|is_eq|is_ne|is_lt|is_gt|is_le|is_ge)$', 'Ordering combinators')
 def _ordering_ops(eng, st, args, ci):
     op = ci.func.rsplit('::', 1)[1]
@@ -695,6 +702,21 @@ def _range_incl_contains(eng, st, args, ci):
     if x.signed:
         return z3.And(lo_.e <= x.e, x.e <= hi_.e)
     return z3.And(z3.ULE(lo_.e, x.e), z3.ULE(x.e, hi_.e))
+
+
+@intrinsic(r'^((std|core)::option::)?Option::<.*>::(as_deref|as_deref_mut)$', 'Option::as_deref (String / Vec / Box deref to the same value in this model)')
+def _opt_as_deref(eng, st, args, ci):
+    r = args[0]
+    v = eng.read_ref(st, r) if isinstance(r, Ref) else r
+    if not isinstance(v, Enum):
+        raise Unsupported('as_deref of %r' % (v,))
+    pl = {}
+    if 1 in v.payloads:
+        if isinstance(r, Ref):
+            pl[1] = Tup([Ref(r.key, r.projs + (('downcast', 'Some'), ('field', 0)), r.mut)])
+        else:
+            pl[1] = v.payloads[1]
+    return Enum('Option', v.discr, pl)
 
 
 @intrinsic(r'^((std|core)::option::)?Option::<.*>::flatten$', 'Option::flatten')
@@ -1559,6 +1581,78 @@ def _iter_take(eng, st, args, ci):
         cell = eng.ref_to(s, Seq(list(items[:n])), False, 'take')
         res.append((s, 'ret', Tup([cell, bv_const(0, 'usize')], 'OwnedIter')))
     return res
+
+
+@intrinsic(r'^<(std::iter::)?Map<.*> as (std::iter::)?Iterator>::next$', 'Map<I, F>::next over an iterator that is itself summarised or stubbed: inner next, then the real F', prio=3)
+def _map_next(eng, st, args, ci):
+    mref = args[0]
+    if not isinstance(mref, Ref):
+        raise Unsupported('Map::next on a non-reference')
+    mv = eng.read_ref(st, mref)
+    if not (isinstance(mv, Tup) and mv.name == 'Map'):
+        raise Unsupported('Map::next on %r' % (mv,))
+    inner, f = mv.items
+    m = re.match(r'^<(?:std::iter::)?Map<(.*)> as (?:std::iter::)?Iterator>::next$', ci.func)
+    from .engine import CallInfo, split_top_commas
+    parts = split_top_commas(m.group(1))
+    inner_ty = parts[0].strip()
+    ci2 = CallInfo()
+    ci2.func = '<%s as Iterator>::next' % inner_ty
+    ci2.dest_ty = None
+    ci2.frame = ci.frame
+    ci2.fn = ci.fn
+    ci2.bb = ci.bb
+    ci2.arg_ops = None
+    iref = Ref(mref.key, mref.projs + (('field', 0),), True)
+    res = []
+    for (s1, kind, val) in eng.call_path(st, ci2.func, [iref], ci2):
+        if kind != 'ret':
+            res.append((s1, kind, val))
+            continue
+        if not isinstance(val, Enum):
+            raise Unsupported('inner next returned %r' % (val,))
+
+        def on_some(s, x):
+            out = []
+            for (s2, k2, v2) in eng.call_value(s, f, [x], None):
+                out.append((s2, k2, some(v2) if k2 == 'ret' else v2))
+            return out
+        res.extend(_fork_on_option(eng, s1, val, on_some, lambda s: [(s, 'ret', NONE)]))
+    return res
+
+
+@intrinsic(r'^<' + _ITER_TYS + r'<.*> as (std::iter::)?Iterator>::find::<', 'Iterator::find (forks on the real predicate per element)', prio=2)
+def _iter_find(eng, st, args, ci):
+    it, f = args
+    if isinstance(it, Ref):
+        it = eng.read_ref(st, it)
+    results = []
+    for (s0, items) in drain(eng, st, it):
+        live = [s0]
+        for item in items:
+            nxt = []
+            for s1 in live:
+                arg = eng.ref_to(s1, item, False, 'find')            # predicate takes &Self::Item
+                for (s2, kind, val) in eng.call_value(s1, f, [arg], None):
+                    if kind != 'ret':
+                        results.append((s2, kind, val))
+                        continue
+                    t_ok = eng.feasible(s2, val)
+                    f_ok = eng.feasible(s2, z3.Not(val))
+                    if t_ok and f_ok:
+                        s3 = s2.fork()
+                        s3.assume(z3.Not(val))
+                        nxt.append(s3)
+                        s2.assume(val)
+                        results.append((s2, 'ret', some(item)))
+                    elif t_ok:
+                        results.append((s2, 'ret', some(item)))
+                    elif f_ok:
+                        nxt.append(s2)
+            live = nxt
+        for s1 in live:
+            results.append((s1, 'ret', NONE))
+    return results
 
 
 @intrinsic(r'^<' + _ITER_TYS + r'<.*> as (std::iter::)?Iterator>::flat_map::<', 'Iterator::flat_map over closures returning Vec (lazy adaptor; closure = real MIR)', prio=2)
